@@ -39,6 +39,59 @@ def _expect(case, a):
     return None
 
 
+@monitor('c15_routes')
+def _routes(case, a):
+    """every spelling of the path of one file — relative, ./relative, through dir/.., absolute, through a
+    symbolic link to the file and to its top directory — and the literal route name the *same* module:
+    importing by two routes evaluates the file's text once and yields one object"""
+    import os
+    from .. import impl
+    from pbhhg_py import interpret, parse, abstract_syntax as AS, main as M
+    imp, target = case.data
+    root = impl.sandbox().root
+    top = target.split("/")[0]
+    fs = dict(case.fs)
+    fs["zz_l1"] = ('symlink', top)                                   # link to the top component (file or directory)
+    spell = {
+        'literal': imp,
+        'rel': render(bi('ㅂ', str_lit(target))),
+        'dot': render(bi('ㅂ', str_lit("./" + target))),
+        'dotdot': render(bi('ㅂ', str_lit(top + "/../" + target))) if "/" in target else None,
+        'abs': render(bi('ㅂ', str_lit(os.path.join(root, target)))),
+        'link': render(bi('ㅂ', str_lit("/".join(["zz_l1"] + target.split("/")[1:])))),
+    }
+    base = {os.path.basename(target)} | ({'zz_l1'} if '/' not in target else set())
+
+    class Count(interpret.DebuggerBase):
+        def __init__(self): self.n = 0; self.keep = []
+        def before_eval(self, depth, expr):
+            self.keep.append(expr)
+            if os.path.basename(expr.expr.metadata.filename) in base:
+                self.n += 1
+        def after_eval(self, depth, expr, result): pass
+
+    def run2(p1, p2):
+        c = Count()
+        def fn():
+            exprs = parse.parse('<t>', f"({p1}) ({p2}) ㄴㅎㄷ")
+            vals = [AS.Expr(e, AS.Env([], [])) for e in exprs]
+            return {'kind': 'ok', 'results': [interpret.evaluate(M.formatter(v, True), debugger=c) for v in vals]}
+        r = impl.run(fn, '', fs)
+        return (r['kind'], r.get('results') or r.get('err') or r.get('crash')), c.n
+
+    want, n1 = run2(imp, imp)
+    for name, sp in spell.items():
+        if sp is None or name == 'literal':
+            continue
+        for p1, p2 in ((imp, sp), (sp, imp), (sp, spell['rel'])):
+            got, n = run2(p1, p2)
+            if got != want:
+                return f"import by literals and by the {name} path are not the same object: {got} (twice by literals: {want})"
+            if n != n1:
+                return f"module text evaluated {n} steps when imported by literals + {name} path, {n1} steps when imported twice by literals"
+    return None
+
+
 def cases(rng, tier):
     n = 250 if tier == 'quick' else 8000
     g = gen.Gen(rng, max_depth=3)
@@ -94,6 +147,7 @@ def cases(rng, tier):
             by_path = render(bi('ㅂ', str_lit(target)))
             yield Case(program=imp, variants=(by_path, f"ㄹ ({by_path} ㅎ) ㅎㄴ"), fs=fs, tag='unique:path-vs-literal')
             yield Case(program=f"({imp}) ({by_path}) ㄴㅎㄷ", fs=fs, tag='unique:same-object')
+            yield Case(program=f"({imp}) ({imp}) ㄴㅎㄷ", fs=fs, tag='unique:routes', monitor='c15_routes', data=(imp, target))
             if not text.startswith("ㄹ ㅇ") and text != "ㄱ ㅇ":
                 yield Case(program=imp, variants=(text,), fs=fs, tag='unique:context-free')
             else:
@@ -112,7 +166,7 @@ SPEC = {
             'directories, in the variants unique / ambiguous sibling / ambiguous at an upper level / regular file matching an '
             'intermediate component / missing / empty / two-expression module × module texts (literal, expression, function, '
             'list, raising, argument / function reference that must not resolve) × importing contexts (top level, inside a '
-            'function with arguments, as an argument, twice under ㄴ); import by path vs by literals; imported value vs the '
+            'function with arguments, as an argument, twice under ㄴ); import by path vs by literals; every spelling of the path (relative, ./, dir/.., absolute, through symbolic links) against the literal route: same object and the text of the module evaluated once (observer events inside the module file counted); imported value vs the '
             'text evaluated alone; observer events of a triple import. Implementation vs model. Non-trivial: all',
     'trusted': ['os.listdir / os.path of the host on a real scratch tree'],
     'assumptions': ['the module registry is reset between cases (harness) — sessions are C20'],
